@@ -28,17 +28,17 @@ type CallInfo struct {
 
 // OpResult is the canonical outcome of one real call.
 type OpResult struct {
-	Cls      string   `json:"cls"`             // ok | closed | ctx | timeout | nested | existing | noActive | mismatch | store | callback | sessEnded | missingTxn | dup | lost | panic
-	Panic    string   `json:"panic,omitempty"` // panic value text (monitors only)
-	Matched  int64    `json:"m,omitempty"`
-	Modified int64    `json:"d,omitempty"`
-	Doc      string   `json:"doc,omitempty"`  // findOneAndUpdate: returned document
-	Docs     []string `json:"docs,omitempty"` // find: contents
-	Has      bool     `json:"has,omitempty"`  // next/trynext returned true
-	Ev       *Ev      `json:"ev,omitempty"`   // delivered event
-	StreamErr string  `json:"serr,omitempty"` // class of stream.Err() after a false Next
-	Wrote    bool     `json:"w,omitempty"`    // the call changed its transaction
-	Start    string   `json:"start,omitempty"` // watch: the start position actually used ("T.I" of the token / time)
+	Cls       string   `json:"cls"`             // ok | closed | ctx | timeout | nested | existing | noActive | mismatch | store | callback | sessEnded | missingTxn | dup | lost | panic
+	Panic     string   `json:"panic,omitempty"` // panic value text (monitors only)
+	Matched   int64    `json:"m,omitempty"`
+	Modified  int64    `json:"d,omitempty"`
+	Doc       string   `json:"doc,omitempty"`   // findOneAndUpdate: returned document
+	Docs      []string `json:"docs,omitempty"`  // find: contents
+	Has       bool     `json:"has,omitempty"`   // next/trynext returned true
+	Ev        *Ev      `json:"ev,omitempty"`    // delivered event
+	StreamErr string   `json:"serr,omitempty"`  // class of stream.Err() after a false Next
+	Wrote     bool     `json:"w,omitempty"`     // the call changed its transaction
+	Start     string   `json:"start,omitempty"` // watch: the start position actually used ("T.I" of the token / time)
 }
 
 // Ev summarises a change event.
